@@ -1,6 +1,6 @@
 #!/usr/bin/env python3
 """Constants translator (tie 2): re-reads the event code table and the broadcast address from the
-Rust source and writes coq/Generated/SourceConsts.v.  Generated/Tie.v then re-proves that these
+Rust source and writes coq/Generated/SourceConsts.v.  Generated/TieCodes.v / TieNoDup.v / TieBroadcast.v then re-prove that these
 are the constants the model and the specification use, and that the codes are pairwise distinct."""
 import re, sys, os
 
